@@ -75,8 +75,12 @@ Definition start (logs : qmap) : st := mkSt logs [] [] [].
 
 Inductive op :=
 | OConn (c slow : Z)                       (* connect; slow: the client pauses that many us per message *)
+| OStall (c ms : Z)                        (* the client stops reading for ms milliseconds from now *)
 | OKey (c v : Z)                           (* set the routing key of c (acknowledged before the next op) *)
-| OSend (c ty n1 n2 tag pad : Z).          (* pipelined request: n1 pushes, the response, n2 pushes *)
+| OSend (c ty n1 n2 tag pad mode : Z) (targets : list Z).
+    (* pipelined request: n1 pushes, the response, n2 pushes.  mode 0: each push goes to the
+       requester (PushMessageById); mode 1: to the connected ones among [targets]
+       (PushMessageByIds); mode 2: broadcast through a channel holding them (Channel.PushMessage) *)
 
 Inductive ev :=
 | EPush (inst tag seq ctr cnt : Z)         (* cnt consecutive pushes seq.., issue counters ctr.. *)
@@ -84,13 +88,17 @@ Inductive ev :=
 | EErr                                     (* error response (no payload) *)
 | EOther.
 
-Definition zseq (from count : Z) : list Z :=
-  map (fun n => from + Z.of_nat n) (seq 0 (Z.to_nat count)).
+Fixpoint zseq_from (from : Z) (fuel : nat) : list Z :=
+  match fuel with O => [] | S f => from :: zseq_from (from + 1) f end.
 
-Definition script (i c tag n1 n2 : Z) : list item :=
-  map (fun q => mkItem i c KPush tag q) (zseq 0 n1)
-  ++ [mkItem i c KResp tag 0]
-  ++ map (fun q => mkItem i c KPush tag q) (zseq n1 n2).
+Definition zseq (from count : Z) : list Z := zseq_from from (Z.to_nat count).
+
+(* count pushes numbered from.., each to every target (one item per target, in listing order) *)
+Definition pushes (i tag : Z) (targets : list Z) (from count : Z) : list item :=
+  flat_map (fun q => map (fun t => mkItem i t KPush tag q) targets) (zseq from count).
+
+Definition script (i c tag n1 n2 : Z) (targets : list Z) : list item :=
+  pushes i tag targets 0 n1 ++ [mkItem i c KResp tag 0] ++ pushes i tag targets n1 n2.
 
 (* routing of the harness node: gate is the front itself, room has one instance (3), chat is
    routed by the connection's key (1 / 2), anything else has no target *)
@@ -105,8 +113,11 @@ Definition conn_step (cs : alist Z) (o : op) : alist Z :=
   match o with
   | OConn c _ => match aget c cs with None => aset c 0 cs | Some _ => cs end
   | OKey c v => match aget c cs with Some _ => aset c v cs | None => cs end
-  | OSend _ _ _ _ _ _ => cs
+  | OStall _ _ | OSend _ _ _ _ _ _ _ _ => cs
   end.
+
+Definition connected (cs : alist Z) (c : Z) : bool :=
+  match aget c cs with Some _ => true | None => false end.
 
 Definition conns_of (ops : list op) : alist Z := fold_left conn_step ops [].
 
@@ -116,11 +127,12 @@ Fixpoint issue_from (cs : alist Z) (ops : list op) : list item :=
   | [] => []
   | o :: r =>
       (match o with
-       | OSend c ty n1 n2 tag _ =>
+       | OSend c ty n1 n2 tag _ mode targets =>
            match aget c cs with
            | Some key =>
                match target ty key with
                | Some i => script i c tag n1 n2
+                             (if Z.eqb mode 0 then [c] else filter (connected cs) targets)
                | None => [mkItem front c KErr 0 0]     (* no target: the front answers an error *)
                end
            | None => []
